@@ -12,7 +12,7 @@ import vf
 
 LEVEL = "model_checking"
 SPEC = os.path.join(vf.ROOT, "spec", "Rov")
-INVS = ["OnlyCoveringMatters", "StatesConsistent", "As0NeverValid", "DropSourceOK"]
+INVS = ["OnlyCoveringMatters", "StatesConsistent", "As0NeverValid", "DropSourceOK", "ResetOK"]
 EMB_QUICK = [{"fam": "v4", "off": 6}, {"fam": "v4", "off": 8}, {"fam": "v4", "off": 21}, {"fam": "v6", "off": 61},
              {"fam": "v6", "off": 64}]
 EMB_THOROUGH = EMB_QUICK + [{"fam": "v4", "off": 0}, {"fam": "v4", "off": 13}, {"fam": "v4", "off": 24}, {"fam": "v4", "off": 29},
